@@ -465,6 +465,43 @@ def run(chk):
     if seen_red != set(DOC_RED):
         raise core.AnalysisBroken("UDQ scalar functions not found: %s" % sorted(set(DOC_RED) - seen_red))
 
+    # ---- C17.sign: the sign a node carries
+    r_sg = chk.rule("C17.sign", "UDQASTNode: the sign of a (sub)expression is applied exactly once to whatever the node evaluates to (every evaluating return of eval() is sign * eval_xxx(...)), and a further sign factor is multiplied into the one already carried (scale: sign *= factor), never stored over it - so that -(-X) = X and (-X) = -X", floor=6)
+    ax = chk.facts(["opm/input/eclipse/Schedule/UDQ/UDQASTNode.cpp"])
+    evs = [f for f in ax.fns if f["q"] == "Opm::UDQASTNode::eval" and f.get("body")]
+    if len(evs) != 1:
+        raise core.AnalysisBroken("UDQASTNode::eval: %d definitions" % len(evs))
+    for r_ in walk(evs[0]["body"]):
+        if r_["k"] != "Return" or r_.get("e") is None:
+            continue
+        callee = [x for x in walk(r_["e"]) if x["k"] == "MCall" and (x.get("m") or "").startswith("eval_")]
+        if not callee:
+            continue
+        e = strip(r_["e"])
+        while e.get("k") in ("Ctor", "Temp", "Bind") and len([a for a in (e.get("a") or e.get("c") or []) if a.get("k") != "DefArg"]) == 1:
+            e = strip([a for a in (e.get("a") or e.get("c")) if a.get("k") != "DefArg"][0])
+        ops = (e.get("a") or e.get("c") or []) if (e.get("k") in ("OpCall", "Bin") and e.get("op") == "*") else []
+        signs = [o for o in ops if strip(o).get("k") == "Mem" and strip(o).get("n") == "sign"]
+        key = "eval:%s" % callee[0]["m"]
+        chk.instance(r_sg, key, sample=dict(returns=show(r_["e"])[:80], sign_factors=len(signs)))
+        if len(signs) != 1 or len(ops) != 2:
+            chk.violation(r_sg, key, "UDQASTNode::eval returns `%s`: the node's sign must multiply the value of %s exactly once" % (show(r_["e"])[:80], callee[0]["m"]), evs[0]["file"], r_["l"])
+    n_w = 0
+    for f in ax.fns:
+        if f.get("cls") != "Opm::UDQASTNode" or not f.get("body") or f["n"] == "UDQASTNode":
+            continue
+        pn = {p_["n"] for p_ in f.get("params") or []}
+        for n in walk(f["body"]):
+            if n["k"] == "Bin" and n.get("asg") and strip(n["c"][0]).get("k") == "Mem" and strip(n["c"][0]).get("n") == "sign" and strip(strip(n["c"][0]).get("b") or {"k": "This"}).get("k") == "This":
+                n_w += 1
+                from_param = any(x.get("k") == "Ref" and x.get("n") in pn for x in walk(n["c"][1]))
+                key = "write:%s" % f["n"]
+                chk.instance(r_sg, key, sample=dict(function=f["q"], statement=show(n)[:60]))
+                if from_param and n["op"] != "*=":
+                    chk.violation(r_sg, key, "%s stores its factor over the sign the node already carries (`%s`): the sign of the inner expression is lost, (-X) evaluates as X and -(-X) as -X" % (f["q"], show(n)[:60]), f["file"], n["l"])
+    if not n_w:
+        raise core.AnalysisBroken("UDQASTNode: no method updates the sign member")
+
     chk.assumptions += [
         "documented precedence: parentheses/functions, ^, * /, + -, comparisons, set operators (the property statement)",
         "NAME_IMPL / NAME_TOKEN in rules/C17.py: documented meaning of every UDQ function and operator name",
